@@ -323,6 +323,30 @@ pub fn run_c11(prop: &str, seed: u64, index: usize, tier: Tier) -> RunReport {
         rep.evaluations = 1;
         return rep;
     };
+    // a third of the images are damaged first (garbage / invalid frame headers, aimed overwrites): recovery then
+    // goes through its corrupted-block resync paths, whose I/O calls are fault targets like any other
+    let mut damage: Vec<crate::fault::DamageOp> = Vec::new();
+    let image = if seed % 3 == 1 {
+        let parsed = crate::walparse::parse(&image);
+        let mut drng = Rng::new(mix(&[seed, 0xC11D]));
+        if !parsed.frames.is_empty() {
+            for _ in 0..1 + drng.usize_below(2) {
+                let fi = drng.usize_below(parsed.frames.len());
+                let op = if drng.chance(2, 3) {
+                    crate::damage::frame_header_damage(&parsed, fi, *drng.pick(&[1u8, 2, 5, 5]), &mut drng)
+                } else {
+                    Some(crate::damage::aimed_overwrite(&parsed, &image, &mut drng))
+                };
+                if let Some(op) = op {
+                    damage.push(op);
+                }
+            }
+        }
+        rep.count("images_damaged_before_recovery", 1);
+        crate::damage::apply_damage(&image, &damage)
+    } else {
+        image
+    };
     let Some(calls) = baseline_calls(&image, &names, policy, &case.knobs) else {
         rep.count("baseline_recovery_failed", 1);
         rep.evaluations = 1;
@@ -375,7 +399,7 @@ pub fn run_c11(prop: &str, seed: u64, index: usize, tier: Tier) -> RunReport {
                                     prop: prop.to_string(), clause: clause.to_string(),
                                     detail: format!("errno {} ({}) at recovery call {} {:?}({}): {}", errno, if persistent { "persistent" } else { "transient" }, c.index, c.class, c.target, detail),
                                     case: case.clone(),
-                                    fault: Fault::IoErr { call: c.index, errno, persistent, consumed: cons },
+                                    fault: Fault::IoErr { call: c.index, errno, persistent, consumed: cons, damage: damage.clone() },
                                 });
                             }
                         }
